@@ -1,13 +1,14 @@
 """C17 - WSGI adapter conforms to PEP 3333."""
 from __future__ import annotations
 
+import os
 import threading
 from typing import Any, Dict, List, Optional
 
 from hypothesis import strategies as st
 
-from vlib.core import CaseInfo, Part, Violation
-from wire.h1 import b2s, s2b
+from vlib.core import CaseInfo, Inconclusive, Part, Violation
+from wire.h1 import b2s, parse_responses, s2b
 
 PROPERTY = "C17"
 LEVEL = "exploration"
@@ -622,8 +623,165 @@ def run_concurrent(case: Dict[str, Any]) -> CaseInfo:
                     + (["at_limit"] if near else []), evals=len(reqs))
 
 
+# --------------------------------------------------------------------------- through serve()
+
+
+@st.composite
+def serve_case(draw: Any) -> Dict[str, Any]:
+    limit = draw(st.sampled_from([0, 7, 64, 1000]))
+    sizes = draw(st.lists(st.sampled_from([0, max(0, limit - 1), limit, limit + 1, limit + 50]),
+                          min_size=1, max_size=3))
+    return {"backend": draw(st.sampled_from(["asyncio", "trio"])), "limit": limit,
+            "sizes": sizes, "chunked": draw(st.booleans())}
+
+
+def run_serve_case(case: Dict[str, Any]) -> CaseInfo:
+    """The public entry points: hypercorn.asyncio.serve / hypercorn.trio.serve with mode='wsgi'
+    on a unix socket, real loop, real threads; asserts data only, no timing."""
+    import shutil
+    import tempfile
+    from asyncio import TimeoutError as asyncio_TimeoutError
+
+    from hypercorn.config import Config
+
+    work = os.path.join(os.path.dirname(os.path.dirname(os.path.abspath(__file__))), ".work")
+    os.makedirs(work, exist_ok=True)
+    tmp = tempfile.mkdtemp(prefix="c17s-", dir=work)
+    path = os.path.join(tmp, "s.sock")
+    called: List[int] = []
+
+    def app(environ: dict, start_response: Any) -> Any:
+        data = environ["wsgi.input"].read()
+        called.append(len(data))
+        start_response("200 OK", [("content-length", str(len(data)))])
+        return [data]
+
+    config = Config()
+    config.bind = ["unix:" + path]
+    config.wsgi_max_body_size = case["limit"]
+    config.accesslog = None
+    config.errorlog = None
+    results: List[tuple] = []
+
+    def request(n: int) -> bytes:
+        body = bytes((i * 13 + n) % 256 for i in range(n))
+        if case["chunked"] and n:
+            return (b"POST /s HTTP/1.1\r\nHost: x\r\nConnection: close\r\n"
+                    b"Transfer-Encoding: chunked\r\n\r\n%x\r\n" % n) + body + b"\r\n0\r\n\r\n"
+        return b"POST /s HTTP/1.1\r\nHost: x\r\nConnection: close\r\nContent-Length: %d\r\n\r\n" \
+            % n + body
+
+    try:
+        if case["backend"] == "asyncio":
+            import asyncio
+
+            from hypercorn.asyncio import serve
+
+            async def main() -> None:
+                stop = asyncio.Event()
+                task = asyncio.ensure_future(serve(app, config, shutdown_trigger=stop.wait,
+                                                   mode="wsgi"))
+                try:
+                    for n in case["sizes"]:
+                        for _ in range(400):
+                            try:
+                                r, w = await asyncio.open_unix_connection(path)
+                                break
+                            except OSError:
+                                if task.done():
+                                    task.result()
+                                await asyncio.sleep(0.01)
+                        else:
+                            raise Violation("serve_not_listening", "asyncio serve() never "
+                                            "accepted a connection")
+                        w.write(request(n))
+                        results.append((n, await asyncio.wait_for(r.read(), 30)))
+                        w.close()
+                finally:
+                    stop.set()
+                    await asyncio.wait_for(task, 30)
+
+            asyncio.run(main())
+        else:
+            import trio
+
+            from hypercorn.trio import serve as tserve
+
+            async def tmain() -> None:
+                stop = trio.Event()
+                with trio.fail_after(60):
+                    async with trio.open_nursery() as nursery:
+                        nursery.start_soon(lambda: tserve(app, config, shutdown_trigger=stop.wait,
+                                                          mode="wsgi"))
+                        try:
+                            for n in case["sizes"]:
+                                for _ in range(400):
+                                    try:
+                                        sock = await trio.open_unix_socket(path)
+                                        break
+                                    except OSError:
+                                        await trio.sleep(0.01)
+                                else:
+                                    raise Violation("serve_not_listening", "trio serve() never "
+                                                    "accepted a connection")
+                                await sock.send_all(request(n))
+                                data = b""
+                                while True:
+                                    piece = await sock.receive_some(65536)
+                                    if not piece:
+                                        break
+                                    data += piece
+                                results.append((n, data))
+                                await sock.aclose()
+                        finally:
+                            stop.set()
+
+            try:
+                trio.run(tmain)
+            except BaseExceptionGroup as g:
+                leaf: BaseException = g
+                while isinstance(leaf, BaseExceptionGroup) and len(leaf.exceptions) == 1:
+                    leaf = leaf.exceptions[0]
+                if isinstance(leaf, Violation):
+                    raise leaf
+                if isinstance(leaf, trio.TooSlowError):
+                    raise Inconclusive("wall-clock budget of the real-time serve case used up")
+                raise Violation("serve_failed", f"trio serve() with a WSGI application: "
+                                f"{leaf!r}", backend="trio")
+    except (Violation, Inconclusive):
+        raise
+    except (TimeoutError, asyncio_TimeoutError) as e:
+        raise Inconclusive(f"wall-clock budget of the real-time serve case used up: {e!r}")
+    except Exception as e:
+        raise Violation("serve_failed", f"{case['backend']} serve() with a WSGI application: "
+                        f"{e!r}", backend=case["backend"])
+    finally:
+        shutil.rmtree(tmp, ignore_errors=True)
+    want_calls = [n for n in case["sizes"] if n <= case["limit"]]
+    if sorted(called) != sorted(want_calls):
+        raise Violation("serve_limit_not_applied", f"wsgi_max_body_size={case['limit']}: the "
+                        f"application was called with bodies of {called}, expected {want_calls} "
+                        f"(sent {case['sizes']})", backend=case["backend"])
+    for n, raw in results:
+        resps, _, err = parse_responses(raw, ["POST"], True)
+        status = resps[0].status if resps else None
+        if n > case["limit"]:
+            if status != 400:
+                raise Violation("oversize_not_400", f"{n} > {case['limit']}: {status} {err}",
+                                backend=case["backend"])
+        elif status != 200 or resps[0].body != bytes((i * 13 + n) % 256 for i in range(n)):
+            raise Violation("serve_echo_wrong", f"{n} bytes: {status} {err}",
+                            backend=case["backend"])
+    near = any(abs(n - case["limit"]) <= 1 for n in case["sizes"])
+    return CaseInfo(near, ["backend=" + case["backend"], f"limit={case['limit']}"],
+                    evals=len(case["sizes"]))
+
+
 def parts() -> List[Part]:
     return [
+        Part("serve", run_serve_case, strategy=serve_case, quick=64, thorough=1500,
+             rule="hypercorn.asyncio.serve / hypercorn.trio.serve(mode='wsgi') on a unix socket: "
+                  "the configured body limit reaches the wrapper, bodies echo"),
         Part("concurrent", run_concurrent, strategy=concurrent_case, quick=600, thorough=20000,
              rule="2..3 requests in flight through one WSGIWrapper, body messages interleaved"),
         Part("wrapper", run_case, strategy=lambda: case_strategy(["wrapper"]),
